@@ -19,7 +19,7 @@ from ..coqrun import cN, cZ, cbool, clist
 from ..tok import S
 
 PID = "C18"
-COQ_HEADER = ("From Coq Require Import List NArith ZArith.\nFrom SK Require Import lib.Tok model.C18_Model.\n"
+COQ_HEADER = ("From Coq Require Import List NArith ZArith.\nFrom SK Require Import lib.Tok model.C18_Model model.C18_AttrModel model.C18_WLModel.\n"
               "Import ListNotations.\n")
 SHARD = 60
 IMPL_TIMEOUT = 1500
@@ -59,7 +59,9 @@ ASSUMPTIONS = ["species labels are disjoint from reaction ids (the views put bot
                "C18:view-id-collision, theorem C18_species_renaming_refuted); clause 2 is therefore proved for renamings of the VIEW's nodes",
                "model: default node_attr_keys=('kind',) and edge_attr_keys=('role','stoich'); integer_ids=True is modelled through the encoding "
                "(the model receives the network with the converter's numbers as ids; C18_net_renamed_ids); non-default attribute selections "
-               "and WL options are judged by the oracle only",
+               "on the bipartite view are modelled in coq/model/C18_AttrModel.v (C18_attr_default: the default selection is the base model; "
+               "C18_attr_canon_iso: clause 1 for every selection; clauses 2-4 for non-default selections are judged by the oracle); species-view "
+               "selections and WL options are judged by the oracle only",
                "views above 45 nodes are judged by the oracle only (the model's refinement is O(n^4) under vm_compute)",
                "stoichiometric coefficients are positive integers", "no max_depth / timeout given to the canonicaliser"]
 TESTED_NOT_PROVED = ["WLCanonicalizer (documented as approximate): its canonical graph is isomorphic to the view and its colour cells "
@@ -149,6 +151,13 @@ def _premises(G):
     return bool(ok)
 
 
+def _wl_obs(H, rank, inc, stoich, kw):
+    """WL colour cells and the automorphism estimate (the WL canonical relabelling depends on digest values: oracle only)"""
+    from synkit.CRN.Topo.wl_canon import WLCanonicalizer
+    W = WLCanonicalizer(H, include_rule=inc, include_stoich=stoich, **kw).summary()
+    return [S([S(sorted(rank[v] for v in o)) for o in W["orbits"]]), W["automorphism_count"]]
+
+
 def _impl_net(net, view, stoich, intids=False):
     return _impl_H(_build(net), view, stoich, intids)
 
@@ -186,7 +195,7 @@ def _impl_H(H, view, stoich, intids=False, keep=None):
             A["automorphism_count"],
             S([S(sorted(rank[v] for v in o)) for o in A["orbits"]]),
             _premises(G),
-            [S([[rank[k], rank[v]] for k, v in m.items()]) for m in s["mappings"]]]
+            [S([[rank[k], rank[v]] for k, v in m.items()]) for m in s["mappings"]]] + _wl_obs(H, rank, inc, stoich, dict(integer_ids=intids))
 
 
 def _add_extra(H, net0, net1):
@@ -347,10 +356,61 @@ def _history_nets(case):
     return out
 
 
+NSEL = {"kind": "NKind", "bipartite": "NBip", "label": "NLabel"}
+ESEL = {"role": "ERole", "stoich": "EStoich"}
+_NODE_KEYS = {"kind", "bipartite", "label"}          # attributes the bipartite converter puts on every node
+_EDGE_KEYS = {"role", "stoich"}
+
+
+def _attr_modelled(case):
+    """attribute selections on the bipartite view are in the model (coq/model/C18_AttrModel.v); the species view's edge
+    attributes (via / rules / stoich maps) are not"""
+    return bool(case.get("attrs")) and case["view"] == "bip" and not case.get("intids")
+
+
+def _impl_attr_net(net, st, nk, ek, wl=None):
+    from synkit.CRN.Topo.canon import CRNCanonicalizer
+    H = _build(net)
+    rank = _node_rank(H, "bip", False)
+    C = CRNCanonicalizer(H, include_rule=True, include_stoich=st, node_attr_keys=list(nk), edge_attr_keys=list(ek))
+    G = C.G
+    log = []
+    orig = C._refine
+
+    def wrapped(G_, part):
+        out = orig(G_, part)
+        log.append([[[rank[v] for v in c] for c in part], [[rank[v] for v in c] for c in out]])
+        return out
+
+    C._refine = wrapped
+    s = C.summary()
+    nodes, arcs = _keyed_graph(G, rank)
+    cn, ca = _keyed_graph(s["canon_graph"])
+    return [S(nodes), S(arcs), [list(x) for x in log], [rank[v] for v in s["canonical_perm"]], C._label(G, s["canonical_perm"]),
+            s["automorphism_count"], [[rank[v] for v in p] for p in s["sample_permutations"]],
+            S([S(sorted(rank[v] for v in o)) for o in s["orbits"]]), S(cn), S(ca)] + \
+        _wl_obs(H, rank, True, st, dict(node_attr_keys=list(nk), edge_attr_keys=list(ek), **(wl or {})))
+
+
+def _coq_ltab(net):
+    """node -> (rank of its 'label' string among the label strings of the view, the string): species are labelled with their
+    name, reaction nodes with the rule name"""
+    H = _build(net)
+    rank = _table(H)
+    lab = {s: s for s in H.species}
+    for eid, e in H.edges.items():
+        lab[eid] = e.rule                  # on an id collision the reaction node overwrites the species node, as in the view
+    order = {x: i for i, x in enumerate(sorted(set(lab.values())))}
+    ent = ["(%s, (%s, %s))" % (cN(rank[n]), cZ(order[x]), clist([cN(ord(ch)) for ch in x])) for n, x in sorted(lab.items(), key=lambda kv: rank[kv[0]])]
+    return clist(ent)
+
+
 def _impl_attrs(case):
-    """non-default attribute selections / WL options: outside the model; the observable is informative only"""
+    """non-default attribute selections: bipartite view in the model; species view / WL options informative only"""
     from synkit.CRN.Topo.canon import CRNCanonicalizer
     at = case["attrs"]
+    if _attr_modelled(case):
+        return [_impl_attr_net(n, case["stoich"], at.get("nk", ("kind",)), at.get("ek", ("role", "stoich")), at.get("wl")) for n in case["nets"]]
     out = []
     for net in case["nets"]:
         C = CRNCanonicalizer(_build(net), include_rule=case["view"] == "bip", include_stoich=case["stoich"],
@@ -389,21 +449,30 @@ MODEL_MAX_NODES = 45         # the Gallina model is evaluated by vm_compute; its
 
 def coq_case(case):
     if case.get("attrs"):
-        return None          # non-default attribute keys / WL options: outside the model, oracle only
+        if not _attr_modelled(case):
+            return None      # species-view attribute selections: outside the model, oracle only
+        at = case["attrs"]
+        nk = clist([NSEL.get(k, "NNone") for k in at.get("nk", ("kind",))])
+        ek = clist([ESEL.get(k, "ENone") for k in at.get("ek", ("role", "stoich"))])
+        nets = clist(["(%s, %s)" % (_coq_net(n), _coq_ltab(n)) for n in case["nets"]])
+        wl = at.get("wl", {})
+        return "run_attr_wl_case %s %s %s %s %s %s %s %s %s" % (
+            cbool(case["stoich"]), nets, nk, ek, cbool(wl.get("include_in_neighbors", True)), cbool(wl.get("include_out_neighbors", True)),
+            "%d%%nat" % wl.get("n_iter", 20), cbool(wl.get("estimate_automorphisms", True)), cN(wl.get("automorphism_cap", 10 ** 18)))
     if case.get("nomodel"):
         return None          # very large automorphism groups: budgeted out of the Coq side
     if any(len({s for _, _, l, r in n["rxns"] for s, _ in l + r} | set(n.get("iso", []))) + len(n["rxns"]) > MODEL_MAX_NODES for n in case["nets"]):
         return None
     if case.get("ops"):
-        terms = ["run_net %s %s %s" % (cbool(view == "bip"), cbool(st), _coq_net(net, view, intids))
+        terms = ["run_net_wl %s %s %s" % (cbool(view == "bip"), cbool(st), _coq_net(net, view, intids))
                  for net, view, st, intids in _history_nets(case)]
         return "L %s" % clist(terms)
     if case.get("steps"):
-        terms = ["run_net %s %s %s" % (cbool(view == "bip"), cbool(st), _coq_net(net, view, intids))
+        terms = ["run_net_wl %s %s %s" % (cbool(view == "bip"), cbool(st), _coq_net(net, view, intids))
                  for net in case["nets"] for view, st, intids in case["steps"]]
         return "L %s" % clist(terms)
     ii = case.get("intids", False)
-    return "run_case %s %s %s" % (cbool(case["view"] == "bip"), cbool(case["stoich"]),
+    return "run_case_wl %s %s %s" % (cbool(case["view"] == "bip"), cbool(case["stoich"]),
                                   clist([_coq_net(n, case["view"], ii) for n in case["nets"]]))
 
 
@@ -823,7 +892,7 @@ def distribution(cases, obss):
         cfg[k] = cfg.get(k, 0) + 1
         for r in c["rel"]:
             rels[r] = rels.get(r, 0) + 1
-        if not (isinstance(obs, list) and obs and isinstance(obs[0], list) and len(obs[0]) == 14):
+        if not (isinstance(obs, list) and obs and isinstance(obs[0], list) and len(obs[0]) == 16):
             continue
         for o in obs:
             nets += 1
@@ -1313,7 +1382,14 @@ ATTR_SELECTIONS = [
     dict(nk=["kind", "bipartite"], ek=["role", "stoich", "order"]),
     dict(nk=["kind", "label"], ek=["role", "stoich"]),
     dict(nk=["kind", "mol"], ek=["role", "stoich", "absent"]),
+    dict(nk=["label"], ek=["role"]),
+    dict(nk=["bipartite", "label", "kind", "bipartite"], ek=["stoich", "role", "stoich"]),
+    dict(nk=["zz", "kind"], ek=["zz"]),
     dict(nk=["kind"], ek=["role", "stoich"], wl=dict(n_iter=1)),
+    dict(nk=["kind"], ek=["role", "stoich"], wl=dict(n_iter=0)),
+    dict(nk=["kind"], ek=["role", "stoich"], wl=dict(n_iter=2, automorphism_cap=3)),
+    dict(nk=["label", "kind"], ek=["stoich"], wl=dict(n_iter=3, include_in_neighbors=False)),
+    dict(nk=[], ek=[], wl=dict(include_in_neighbors=False, include_out_neighbors=False)),
     dict(nk=["kind"], ek=["role", "stoich"], wl=dict(include_in_neighbors=False)),
     dict(nk=["kind"], ek=["role", "stoich"], wl=dict(include_out_neighbors=False, estimate_automorphisms=False, digest_size=4)),
 ]
@@ -1430,7 +1506,7 @@ def gen_cases(tier, rng):
     return cases
 
 
-LEVEL_TEXT = ("Machine-checked proof (Coq, 23 theorems, closed under the global context) over an executable model of CRNCanonicalizer / "
+LEVEL_TEXT = ("Machine-checked proof (Coq, 25 theorems, closed under the global context) over an executable model of CRNCanonicalizer / "
               "CRNAutomorphism and the two network views, for ALL views: the canonical graph is the view relabelled by a bijection onto "
               "k+1..k+n (clause 1); a view renamed by a map injective on its nodes and presented in any other node/arc order gets the same "
               "minimal label and the identical canonical graph (clause 2: signature/label/initial partition equivariant, generic IR leaf "
